@@ -30,6 +30,8 @@ TRUSTED = [
     'not modelled: the template engine around the filter (parsing, _flatten, expression evaluation, non-i18n directives are opaque in the model); `re` (the two regular expressions are re-implemented as list functions); str.strip/str.isalpha (character classes generated from the running interpreter); gettext',
     'the reference template construction in harness/gen_i18n.py (i18n markup removed, message contents rebuilt from the documented [n:...] / %(name)s format)',
     'modelled, not verified: extract_from_code/_walk (Lean: extractFromCode over PyExpr, Genshi/Model/I18nPyExpr.lean), tied by the correspondence stream `pycode` on the syntax trees genshi builds (code.ast, converted generically by py_wire: calls, str/bytes constants, names; every other node by its AST children in _fields order)',
+    'the composition of the two models (Genshi/Model/I18nPyStream.lean: template streams whose code is a PyExpr, lowered by extractFromCode with the gettext_functions argument) is tied by the correspondence stream `extractp` (py_wire of every expression of the template stream); Translator.extract with search_text / comment_stack / context_stack given by the stream `extractw`',
+    'oracle only, not modelled: the Babel entry point genshi.filters.i18n.extract (option parsing), Translator.setup, the application of the remaining directives at the end of MsgDirective.__call__ / ChooseDirective.__call__ (_apply_directives); harness: c19.project / in_hypotheses decide which generated templates reach the oracle',
     'not modelled: how genshi turns source text into code.ast (parsing, TemplateASTTransformer); covered only by the pycode oracle, which reads the call sites off CPython\'s own ast of the source text and evaluates the source with recording stand-ins (harness/gen_pycode.py)',
 ]
 ASSUMPTIONS = [
@@ -169,7 +171,7 @@ def match_edges(w, r):
 
 
 DIR_ATTRS = set(['i18n:msg', 'i18n:choose', 'i18n:singular', 'i18n:plural', 'i18n:domain', 'i18n:ctxt', 'i18n:comment',
-                 'py:if', 'py:for', 'py:strip'])
+                 'py:if', 'py:for', 'py:strip', 'py:with'])
 DIR_ELEMS = set(['i18n:msg', 'i18n:choose', 'i18n:singular', 'i18n:plural', 'i18n:domain', 'i18n:ctxt', 'py:if'])
 
 
@@ -249,6 +251,41 @@ def extract_ids(case):
         elif isinstance(msg, str):
             ids.add(msg)
     return ids, raw
+
+
+def babel_options(cfg, variant):
+    """the `options` dictionary of the Babel entry point for a configuration, written the way a
+    mapping file delivers it (strings) or the way a program passes it (lists / bool)"""
+    opts = {}
+    if list(cfg['ignore_tags']) != list(G.IGNORED):
+        opts['ignore_tags'] = ' '.join(cfg['ignore_tags']) if variant % 2 == 0 else list(cfg['ignore_tags'])
+    if list(cfg['include_attrs']) != list(G.INCL_ATTRS):
+        opts['include_attrs'] = ' '.join(cfg['include_attrs']) if variant % 2 == 0 else list(cfg['include_attrs'])
+    if not cfg['extract_text'] or variant % 3 == 0:
+        if variant % 2 == 0:
+            opts['extract_text'] = (['yes', 'True', 'on', '1'] if cfg['extract_text'] else ['no', 'False', 'off', '0'])[variant % 4]
+        else:
+            opts['extract_text'] = bool(cfg['extract_text'])
+    return opts
+
+
+def extract_ids_babel(case, variant=0):
+    """message ids reported by `genshi.filters.i18n.extract(fileobj, keywords, comment_tags, options)`,
+    the entry point the Babel plugin calls (option parsing, template construction, directive
+    registration and `Translator.extract` with `gettext_functions=keywords`)"""
+    import io
+    from genshi.filters import i18n
+    ids = set()
+    fileobj = io.BytesIO(src(case).encode('utf-8'))
+    for lineno, func, msg, comments in i18n.extract(fileobj, i18n.GETTEXT_FUNCTIONS, [], babel_options(case['cfg'], variant)):
+        if isinstance(msg, tuple):
+            parts = list(msg)
+            if func in ('pgettext', 'pngettext', 'dpgettext', 'dnpgettext', 'npgettext'):
+                parts = parts[1:]
+            ids.update(p for p in parts if isinstance(p, str))
+        elif isinstance(msg, str):
+            ids.add(msg)
+    return ids
 
 
 # --------------------------------------------------------------------------
@@ -452,9 +489,13 @@ def in_hypotheses(case):
         # the template parser never delivers an empty text node among the children of an element and the
         # generator writes none; a shrinking step that empties one would make "first child is text" true
         # of an element-first message (attribute values may be empty: they are not looked at here)
+        prev = None
         for n in nodes or []:
-            if n[0] == 't' and n[1] == '':
+            if n[0] == 't' and (n[1] == '' or prev == 't'):
+                # ... nor two adjacent text nodes (the source text joins them, the reference
+                # construction would translate them one by one)
                 return True
+            prev = n[0]
             if n[0] == 'e' and has_empty_text(n[4]):
                 return True
             if n[0] == 'd' and has_empty_text(n[3]):
@@ -597,12 +638,20 @@ def in_hypotheses(case):
             if msg is not None:
                 if excl or n[1] in ignore or cho is not None or not attrs_ok(n, False, False):
                     return False
-                if any(d not in ('i18n:msg', 'i18n:comment') + _PY_DIRS for d in dirs):
+                if any(d not in ('i18n:msg', 'i18n:comment', 'i18n:ctxt', 'i18n:domain', 'py:with') + _PY_DIRS for d in dirs):
+                    return False
+                if G.dir_of(n, 'i18n:ctxt') == '':
                     return False
                 ps = G.split_params(msg)
                 return params_ok(ps, n[4]) and content_ok(n[4], 0, False, True, False)
             if cho is not None:
-                if excl or n[1] in ignore or dirs != ['i18n:choose'] or not attrs_ok(n, False, False):
+                if excl or n[1] in ignore or not attrs_ok(n, False, False):
+                    return False
+                # the plural choice may share its element with the non-extracting i18n directives and
+                # with control-flow directives (ChooseDirective.__call__ as repaired: it applies them)
+                if any(d not in ('i18n:choose', 'i18n:comment', 'i18n:ctxt', 'i18n:domain', 'py:with') + _PY_DIRS for d in dirs):
+                    return False
+                if G.dir_of(n, 'i18n:ctxt') == '':
                     return False
                 numeral, ps = G.choose_parts(cho)
                 return choose_ok(n[4], numeral, ps)
@@ -634,6 +683,90 @@ def in_hypotheses(case):
         return all(node_ok(n, False) for n in case['tmpl'])
     except Exception:  # noqa
         return False
+
+
+_MSG_DIRS = ('i18n:msg', 'i18n:choose', 'i18n:singular', 'i18n:plural')
+
+
+def project(case):
+    """a case inside the hypotheses of the oracle made from an arbitrary well-formed case (a
+    template of the `Rare` generator, a template on which model and code disagreed): plain
+    elements and i18n:domain / i18n:ctxt elements keep the children that can be kept, message /
+    choose nodes are kept whole or dropped, attributes that break a hypothesis (edge white space in
+    an included attribute, xml:lang where it is not allowed) are repaired or dropped.  Uses
+    `in_hypotheses` as the only judge, so whatever it returns is a case the oracle may be asked
+    about; returns None when nothing is left.  The directive lists of the surviving elements are
+    untouched: the combination of directives on one element is what the search is after."""
+    base = dict(case)
+
+    def inside(nodes):
+        c = dict(base)
+        c['tmpl'] = nodes
+        return in_hypotheses(c)
+
+    incl = set(case['cfg']['include_attrs'])
+
+    def fix_attrs(n):
+        out = []
+        for name, parts in n[2]:
+            if name == 'xml:lang':
+                continue
+            if name in incl and all(q[0] == 't' for q in parts):
+                parts = [['t', ''.join(q[1] for q in parts).strip()]]
+            out.append([name, parts])
+        return [n[0], n[1], out, n[3], n[4]]
+
+    def has_msg(n):
+        if n[0] == 'e':
+            return any(d[0] in _MSG_DIRS for d in n[3]) or any(has_msg(k) for k in n[4])
+        if n[0] == 'd':
+            return n[1] in _MSG_DIRS or any(has_msg(k) for k in n[3])
+        return False
+
+    def join(nodes):
+        out = []
+        for k in nodes:
+            if k is None:
+                continue
+            if k[0] == 't' and out and out[-1][0] == 't':
+                out[-1] = ['t', out[-1][1] + k[1]]      # what the source text says
+            else:
+                out.append(k)
+        return out
+
+    def prune(n):
+        if n[0] == 't' and n[1] == '':
+            return None
+        if n[0] == 'e' and not any(d[0] in _MSG_DIRS for d in n[3]):
+            kids = join(prune(k) for k in n[4])
+            for attrs_fixed in (False, True):
+                for ks in (kids, join(k for k in kids if not has_msg(k)), []):
+                    m = [n[0], n[1], n[2], n[3], ks]
+                    if attrs_fixed:
+                        m = fix_attrs(m)
+                    if inside([m]):
+                        return m
+            return None
+        if n[0] == 'd' and n[1] in ('i18n:domain', 'i18n:ctxt'):
+            kids = join(prune(k) for k in n[3])
+            m = [n[0], n[1], n[2], kids]
+            return m if inside([m]) else None
+        if inside([n]):
+            return n
+        if n[0] == 'e':
+            m = fix_attrs(n)
+            if inside([m]):
+                return m
+        return None
+    try:
+        nodes = join(prune(n) for n in case['tmpl'])
+        if not nodes or not inside(nodes):
+            return None
+        c = dict(base)
+        c['tmpl'] = nodes
+        return c
+    except Exception:  # noqa
+        return None
 
 
 def oracle_case(case):
@@ -669,6 +802,20 @@ def oracle_case(case):
                 missing = sorted(set(i for i in cat.ids(case.get('count_probe', False)) if has_letter(i) and i not in ids))
                 if missing:
                     bad('every looked-up message id containing a letter is extracted', sorted(ids), missing)
+                else:
+                    # the same through the entry point of the Babel plugin, the configuration written as
+                    # its `options` (strings as in a mapping file, or lists / bool)
+                    try:
+                        bids = extract_ids_babel(case, seed)
+                    except Exception as e:  # noqa
+                        bids = None
+                        bad('extraction through the Babel entry point succeeds on a template that renders', 'messages',
+                            'raised ' + type(e).__name__)
+                    if bids is not None:
+                        missing = sorted(set(i for i in cat.ids(case.get('count_probe', False)) if has_letter(i) and i not in bids))
+                        if missing:
+                            bad('every looked-up message id containing a letter is extracted through the Babel entry point '
+                                '(options %r)' % (babel_options(case['cfg'], seed),), sorted(bids), missing)
     else:
         if 'placeholders' in checks and w != r:
             bad('catalogue %s: placeholders are replaced by the original elements, each once, in the translator\'s order' % kind,
@@ -699,8 +846,9 @@ def _clip(x):
 class Wire(object):
     """genshi template events -> wire values; expressions are numbered in order of appearance"""
 
-    def __init__(self):
+    def __init__(self, py=False):
         self.ids = {}
+        self.py = py        # the code travels as its syntax tree (verb `extractp`), not as the list extract_from_code finds
 
     def eid(self, obj):
         k = id(obj)
@@ -716,6 +864,8 @@ class Wire(object):
 
     def code(self, expr):
         from genshi.filters.i18n import extract_from_code, GETTEXT_FUNCTIONS
+        if self.py:
+            return py_wire(expr.ast)
         return [[f, self.val(v)] for f, v in extract_from_code(expr, GETTEXT_FUNCTIONS)]
 
     def dir(self, d):
@@ -1019,6 +1169,44 @@ def corr_lines(case, rng):
     except Exception as e:  # noqa
         real = [Atom('err'), Atom(errname(e))]
     out.append(('extract', line, real))
+    # --- Translator.extract(stream, search_text=st, comment_stack=cs, context_stack=xs): the keyword
+    # arguments the recursion uses, given from outside (theorem lookups_subset_extract_args)
+    tmpl, tr = fresh_template(case)
+    w = Wire()
+    wired = w.stream(tmpl.stream)
+    st = rng.random() < 0.75
+    cs = rng.choice([[], [], ['note'], ['one', 'two']])
+    xs = rng.choice([[], [], ['menu'], ['menu', 'verb'], ['']])
+    line = proto.line(Atom('C19'), Atom('extractw'), wire_cfg(tr), B(st), list(cs), list(xs), wired)
+    try:
+        msgs = []
+        for lineno, func, msg, comments in tr.extract(tmpl.stream, search_text=st, comment_stack=list(cs), context_stack=list(xs)):
+            msgs.append([proto.N if func is None else func, Wire.val(msg), list(comments)])
+        real = [Atom('ok'), msgs]
+    except Exception as e:  # noqa
+        real = [Atom('err'), Atom(errname(e))]
+    out.append(('extractw', line, real))
+    out.append(('branches', None, ['extractw:st=%d,cs=%d,xs=%d' % (int(st), len(cs), len(xs))]))
+    # --- Translator.extract(stream, gettext_functions=gf) with the code as syntax trees: the model
+    # itself runs `extractFromCode gf` where the code meets an EXPR / EXEC event or an expression in an
+    # attribute value (`extractP`); nothing the real extract_from_code computed goes to the model
+    tmpl, tr = fresh_template(case)
+    gf = tuple(i18n.GETTEXT_FUNCTIONS) if rng.random() < 0.5 else rng.choice(TEMPLATE_GF)
+    try:
+        wired = Wire(py=True).stream(tmpl.stream)
+    except ValueError:
+        wired = None
+    if wired is not None and not _has_surrogate(wired):
+        line = proto.line(Atom('C19'), Atom('extractp'), wire_cfg(tr), list(gf), wired)
+        try:
+            msgs = []
+            for lineno, func, msg, comments in tr.extract(tmpl.stream, gettext_functions=gf):
+                msgs.append([proto.N if func is None else func, Wire.val(msg), list(comments)])
+            real = [Atom('ok'), msgs]
+        except Exception as e:  # noqa
+            real = [Atom('err'), Atom(errname(e))]
+        out.append(('extractp', line, real))
+        out.append(('branches', None, ['extractp:gf=' + ('default' if gf == tuple(i18n.GETTEXT_FUNCTIONS) else '+'.join(gf) or 'none')]))
     # --- MsgDirective.__call__ on every message of the template
     tmpl, tr = fresh_template(case)
     w = Wire()
@@ -1260,6 +1448,8 @@ def _has_surrogate(x):
     return False
 
 
+# `gettext_functions` arguments for the templates (their code calls `_`, `ngettext` and `len`)
+TEMPLATE_GF = [('_',), ('ngettext',), (), ('len', '_'), ('ngettext', 'len'), ('gettext', 'N_'), ('_', 'ngettext', 'len')]
 ALT_GF = [('_', 'tr', 'len'), ('gettext',), (), ('N_', 'pgettext', '_', 'ngettext'), ('str', 'dict', 'sorted')]
 
 
@@ -1558,6 +1748,20 @@ def shard(arg):
         except Exception as e:  # noqa
             res.count('rare:unparsable:' + type(e).__name__)
             continue
+        # the part of the template that lies inside the hypotheses of the oracle (all of it, when
+        # it does) is put before the oracle as well: identity + look-ups
+        for checks in (['identity', 'lookups'], ['identity']):
+            pc = project(dict(c, cat='id', catseed=0, checks=checks))
+            if pc is not None:
+                break
+        if pc is None or not valid_case(pc):
+            res.count('rare:oracle:nothing-inside-hypotheses')
+        else:
+            res.count('rare:oracle:' + ('whole' if pc['tmpl'] == c['tmpl'] else 'part') + ':' + '+'.join(pc['checks']))
+            res.evaluations += 1
+            f = oracle_case(pc)
+            if f:
+                res.failures.append(f)
         try:
             for t in corr_lines(c, rrng):
                 if t[0] == 'branches':
@@ -1572,6 +1776,36 @@ def shard(arg):
     triples.extend(pycode_lines(random.Random('%s/%s/C19/pycode' % (seed, idx)), n, res))
     compare(triples, res)
     res.samples = cases[:2]
+    return res
+
+
+def oracle_shard(arg):
+    """the oracle alone (no correspondence, no model) on freshly generated templates of both
+    generators: the fall-back budget of the failing-input search"""
+    import random
+    seed, idx, n = arg
+    rng = random.Random('%s/%s/C19/search' % (seed, idx))
+    res = Result()
+    for c in gen_cases(rng, n):
+        res.evaluations += 1
+        f = oracle_case(c)
+        if f:
+            res.failures.append(f)
+    for _ in range(max(1, n // 4)):
+        c = G.gen_rare_case(rng)
+        try:
+            MarkupTemplateCheck(c)
+        except Exception:  # noqa
+            continue
+        for checks in (['identity', 'lookups'], ['identity']):
+            pc = project(dict(c, cat='id', catseed=0, checks=checks))
+            if pc is not None:
+                break
+        if pc is not None and valid_case(pc):
+            res.evaluations += 1
+            f = oracle_case(pc)
+            if f:
+                res.failures.append(f)
     return res
 
 
@@ -1610,12 +1844,22 @@ def search(ctx, res, broken):
         if key in seen:
             continue
         seen.add(key)
-        for cat, checks in (('id', ['identity', 'lookups']), ('scramble', ['placeholders', 'excluded']),
+        # every clause, whatever the case was generated for (a `Rare` template carries no catalogue and
+        # no list of clauses; a template generated for the identity clause alone may hold letters in
+        # fragment positions): the case as it is when it lies inside the hypotheses of the oracle,
+        # else (and also) the part of it that does - `project`
+        for cat, checks in (('id', ['identity', 'lookups']), ('id', ['identity']), ('scramble', ['placeholders', 'excluded']),
                             ('perm', ['placeholders']), ('drop', ['placeholders'])):
             c2 = dict(c)
             c2['cat'] = cat
-            c2['checks'] = checks if c.get('checks') and 'lookups' in c['checks'] or cat != 'id' else ['identity']
-            f = replay(ctx, c2)
+            c2['checks'] = checks
+            c2.setdefault('catseed', 0)
+            f = None
+            for c3 in (c2, project(c2)):
+                if c3 is not None:
+                    f = replay(ctx, c3)
+                    if f:
+                        break
             if f:
                 found.append(f)
                 break
@@ -1623,7 +1867,7 @@ def search(ctx, res, broken):
             return found
     if found:
         return found
-    for r in pmap('harness.props.c19', 'shard', [(ctx.seed + 1000 + i, i, 600) for i in range(16)]):
+    for r in pmap('harness.props.c19', 'oracle_shard', [(ctx.seed + 1000 + i, i, 600) for i in range(16)]):
         found.extend(f for f in r.failures if not f.get('what', '').startswith('the reference template renders'))
     return found
 
